@@ -3,7 +3,7 @@
 
    disqualify_difference by_arch = Model/Resolver.v: disqualifyDifference, the set
    every architecture's resolution starts from (dq_for by_arch a = its part for
-   architecture a); resolve U W dq0 scheds = GetPackagesWithDependencies. *)
+   architecture a); resolve U W dq0 = GetPackagesWithDependencies. *)
 From Apko Require Import Base.Prelude Generated.VersionConsts Generated.C03Version Model.Version Model.Resolver
   Spec.ResolveSpec Proofs.ResolveProofs Proofs.ResolveProofs2 Proofs.C14Proofs Proofs.ResolveTheorems.
 Open Scope string_scope. Open Scope list_scope. Open Scope nat_scope.
@@ -28,8 +28,8 @@ Proof. vm_compute. reflexivity. Qed.
 (* every member that filterPackages selected is outside the initial set: a
    member inside it can only be a package with install_if (added by the
    install_if loop, which consults no disqualification) *)
-Theorem c14_filtered_members : forall U W dq0 scheds S j,
-  resolve U W dq0 scheds = Ok S -> In j S -> In j dq0 -> p_install_if (nth j U dummy_pkg) <> [].
+Theorem c14_filtered_members : forall U W dq0 S j,
+  resolve U W dq0 = Ok S -> In j S -> In j dq0 -> p_install_if (nth j U dummy_pkg) <> [].
 Proof. exact members_filtered. Qed.
 Print Assumptions c14_filtered_members.
 
@@ -37,8 +37,8 @@ Print Assumptions c14_filtered_members.
    (witness BA_F1 = {x86_64: [w->a, a, a-x(install_if a)], aarch64: [w->a, a]},
    replayed on the real code by the harness corpus) *)
 Theorem c14_no_foreign_version_refuted :
-  exists by_arch a U W scheds S,
-    In (a, U) by_arch /\ resolve U W (dq_for by_arch a) scheds = Ok S /\
+  exists by_arch a U W S,
+    In (a, U) by_arch /\ resolve U W (dq_for by_arch a) = Ok S /\
     ~ NoForeign (others_of by_arch a) (pkgs_of U S) /\
     In "foreign-version/install-if-member" (foreign_check (others_of by_arch a) (pkgs_of U S)).
 Proof. exact no_foreign_refuted_lemma. Qed.
@@ -47,17 +47,17 @@ Print Assumptions c14_no_foreign_version_refuted.
 (* PARTIAL: without install_if packages in the resolved architecture's universe,
    no member is missing from another architecture — whatever the other
    architectures look like, however deep the divergence *)
-Theorem c14_no_foreign_version_partial : forall by_arch a U W scheds S,
+Theorem c14_no_foreign_version_partial : forall by_arch a U W S,
   In (a, U) by_arch -> (forall p, In p U -> p_install_if p = []) ->
-  resolve U W (dq_for by_arch a) scheds = Ok S ->
+  resolve U W (dq_for by_arch a) = Ok S ->
   NoForeign (others_of by_arch a) (pkgs_of U S).
 Proof. exact no_foreign_partial_lemma. Qed.
 Print Assumptions c14_no_foreign_version_partial.
 Example c14_partial_example :
   let ba := [("x86_64", [wp "app" "1" ["lib"] [] []; wp "lib" "1" [] [] []; wp "lib" "2" [] [] []]);
              ("aarch64", [wp "app" "1" ["lib"] [] []; wp "lib" "1" [] [] []])] in
-  resolve (snd (nth 0 ba ("", []))) ["app"] (dq_for ba "x86_64") [] = Ok [1; 0] /\
-  resolve (snd (nth 0 ba ("", []))) ["app"] [] [] = Ok [2; 0].
+  resolve (snd (nth 0 ba ("", []))) ["app"] (dq_for ba "x86_64") = Ok [1; 0] /\
+  resolve (snd (nth 0 ba ("", []))) ["app"] [] = Ok [2; 0].
 Proof. vm_compute. split; reflexivity. Qed.
 
 (* with at most one architecture the initial set is empty and the resolution
@@ -67,6 +67,6 @@ Proof. vm_compute. split; reflexivity. Qed.
    real code can hand back that call's set; the caches belong to C08. *)
 Theorem c14_single_arch_unaffected : forall by_arch, List.length by_arch <= 1 ->
   disqualify_difference by_arch = [] /\
-  forall a U W scheds, resolve U W (dq_for by_arch a) scheds = resolve U W [] scheds.
+  forall a U W, resolve U W (dq_for by_arch a) = resolve U W [].
 Proof. exact single_arch_lemma. Qed.
 Print Assumptions c14_single_arch_unaffected.
